@@ -429,6 +429,7 @@ func (r *RouteTable) OnIfaceStateChanged(ifaceName string, ifIndex int, state if
 			// Interface renumbered.  For example, deleted and then recreated
 			// with same name.  Clean up old number.
 			delete(r.ifaceIndexToName, oldIfIndex)
+			delete(r.ifaceIndexToState, oldIfIndex)
 		}
 		r.ifaceNameToIndex[ifaceName] = ifIndex
 		r.ifaceIndexToName[ifIndex] = ifaceName
